@@ -162,7 +162,7 @@ def run(tier, seed, replay=None):
     outs2 = C.run_model(l2lines)
     evals = 0
     nontriv = set()
-    corr_bad = None
+    corr_bad = C.Corr()
     samples = []
     for qi, (snap, tuples, flat, err, form) in enumerate(queries):
         tk = outs[qi]
@@ -175,18 +175,18 @@ def run(tier, seed, replay=None):
                 nontriv.add(key)
             if tag == 'Err':
                 en = tk.word()
-                if err != en and corr_bad is None:
-                    corr_bad = {'what': 'L1: model raises %s, implementation %s' % (en, err or 'returns'), 'obj': O.spec_json(snap),
+                if err != en and corr_bad.open():
+                    corr_bad += {'what': 'L1: model raises %s, implementation %s' % (en, err or 'returns'), 'obj': O.spec_json(snap),
                                 'params': [str(x) for x in tuples[ti]]}
             else:
                 vals = tk.qlist()
                 if err is not None:
-                    if corr_bad is None:
-                        corr_bad = {'what': 'L1: implementation raises %s, model returns' % err, 'obj': O.spec_json(snap), 'params': [str(x) for x in tuples[ti]]}
+                    if corr_bad.open():
+                        corr_bad += {'what': 'L1: implementation raises %s, model returns' % err, 'obj': O.spec_json(snap), 'params': [str(x) for x in tuples[ti]]}
                 else:
                     sc = max([1.0] + [abs(float(v)) for v in vals])
-                    if not all(C.close(flat[ti][j], vals[j], sc) for j in range(len(vals))) and corr_bad is None:
-                        corr_bad = {'what': 'L1: evaluate differs from model', 'obj': O.spec_json(snap), 'params': [str(x) for x in tuples[ti]],
+                    if not all(C.close(flat[ti][j], vals[j], sc) for j in range(len(vals))) and corr_bad.open():
+                        corr_bad += {'what': 'L1: evaluate differs from model', 'obj': O.spec_json(snap), 'params': [str(x) for x in tuples[ti]],
                                     'impl': [float(x) for x in flat[ti]], 'model': [str(v) for v in vals]}
     for (qi, ti, li) in l2map:
         snap, tuples, flat, err, form = queries[qi]
@@ -271,7 +271,7 @@ def run(tier, seed, replay=None):
                 if not (lo - 1e-9 * max(1, abs(lo)) <= val[c] <= hi + 1e-9 * max(1, abs(hi))):
                     V.failure({'what': 'evaluated point outside the reported bounding box', 'obj': O.spec_json(spec), 'params': tp,
                                'value': val.tolist(), 'bbox': [list(map(float, x)) for x in bb]})
-    rc = V.finish(l0, corr_bad if not V.fail else None)
+    rc = V.finish(l0, corr_bad)
     C.write_evidence(PID, tier, seed, l0, {
         'evaluations': evals + nid + nbb, 'distinct_nontrivial': len(nontriv),
         'rule': 'random objects (pardim 1-3, dim 1-3, rational 40%, open/non-open/periodic directions, asymmetric dyadic nets); '
